@@ -121,6 +121,7 @@ type outTask struct {
 	plans  []EmitPlan
 	allow  bool
 	slow   bool
+	reopen int // index of the command after which a command re-opens /dev/stdout and /dev/stderr by path (-1: none)
 }
 
 // RunOutputCase runs real tasks that write known byte streams and compares what the log store and the log API return
@@ -154,7 +155,10 @@ func RunOutputCase(seed int64, o OutputOpts) *HistResult {
 		for t := 0; t < nT; t++ {
 			name := hostileTaskNames[perm[t]]
 			names = append(names, name)
-			ot := outTask{name: name, allow: r.Intn(4) == 0}
+			ot := outTask{name: name, allow: r.Intn(4) == 0, reopen: -1}
+			if r.Intn(3) == 0 {
+				ot.reopen = 0
+			}
 			nCmd := 1 + r.Intn(4)
 			var script []string
 			for c := 0; c < nCmd; c++ {
@@ -170,6 +174,10 @@ func RunOutputCase(seed int64, o OutputOpts) *HistResult {
 				a := pl.Args()
 				a[2] = "{{.jobtag}}" // the job tag is a job variable rendered into the script
 				script = append(script, shQuote(o.Exe)+" "+strings.Join(a, " "))
+				if c == 0 && ot.reopen == 0 {
+					// a child that opens its standard streams by path must append to the captured output like any other writer
+					script = append(script, `sh -c 'printf "[PATH-%s]" {{.jobtag}} > /dev/stdout; printf "[PATHERR-%s]" {{.jobtag}} >> /dev/stderr'`)
+				}
 			}
 			td := definition.TaskDef{Script: script, AllowFailure: ot.allow}
 			if t > 0 && r.Intn(4) == 0 {
@@ -185,7 +193,7 @@ func RunOutputCase(seed int64, o OutputOpts) *HistResult {
 			a := pl.Args()
 			a[2] = "{{.jobtag}}"
 			def.Tasks[name] = definition.TaskDef{Script: []string{shQuote(o.Exe) + " " + strings.Join(a, " ")}}
-			ots = append(ots, outTask{name: name, plans: []EmitPlan{pl}, slow: true})
+			ots = append(ots, outTask{name: name, plans: []EmitPlan{pl}, slow: true, reopen: -1})
 			cancelTask = name
 		}
 		g := gen.Graph{Deps: map[string][]string{}}
@@ -255,13 +263,17 @@ func RunOutputCase(seed int64, o OutputOpts) *HistResult {
 			}
 			ran := ts.Start != nil
 			var expOut, expErr []byte
-			for _, pl := range ot.plans {
+			for ci, pl := range ot.plans {
 				pl.Tag = j.tag
 				so, se, exit := pl.Expected()
 				expOut = append(expOut, so...)
 				expErr = append(expErr, se...)
 				if exit != 0 && !ot.allow {
 					break
+				}
+				if ci == 0 && ot.reopen == 0 {
+					expOut = append(expOut, "[PATH-"+j.tag+"]"...)
+					expErr = append(expErr, "[PATHERR-"+j.tag+"]"...)
 				}
 			}
 			if !ran {
@@ -300,6 +312,9 @@ func RunOutputCase(seed int64, o OutputOpts) *HistResult {
 			expectedFiles[ot.name] = true
 			// the log API returns the same for UTF-8 payloads
 			if ot.plans[0].Lines && allLines(ot.plans) && !canceled[j.id] && len(expOut) < 1<<20 {
+				if ot.reopen == 0 {
+					res.sit("C19", "std streams re-opened by path")
+				}
 				code, body := api.Do("GET", "/job/logs", url.Values{"id": {j.id}, "task": {ot.name}}, nil)
 				var lr struct{ Stdout, Stderr string }
 				if code != 200 || json.Unmarshal(body, &lr) != nil {
